@@ -292,7 +292,43 @@ func runC03(tier string, seed uint64) int {
 			lines = append(lines, l)
 			agg.add("lines_logging_while_valid", 1)
 		}
+		// configuration variants: the SAME project (same soil, crop, weather and parameter files) run with other settings on
+		// the batch line. Whatever a session shares between runs is then asked for by runs that must interpret it differently.
+		nFixed := len(lines)
+		vr := NewRng(mix(bseed, 4141))
+		nVar := 9 // every kind of setting once
+		if tier == "thorough" {
+			nVar = 18
+		}
+		for v := 0; v < nVar; v++ {
+			k := vr.Intn(nProj)
+			l := lines[k]
+			l.ID = fmt.Sprintf("L%02dv%d", k, v)
+			l.Tokens = append(append([]string{}, l.Tokens...), variantTokens(scs[k], vr, v)...)
+			l.Variant = true
+			lines = append(lines, l)
+		}
 		refs := soloReferences(bin, root, lines, scratch, 2, func(sig, msg string) { agg.violate("C03", sig, msg) })
+		// a variant whose settings the project cannot run with (e.g. a transfer function without texture fractions) is dropped
+		{
+			kl, kr := lines[:nFixed:nFixed], refs[:nFixed:nFixed]
+			for i := nFixed; i < len(lines); i++ {
+				if refs[i].Failed || len(refs[i].Hashes) == 0 {
+					agg.add("variant_lines_dropped", 1)
+					continue
+				}
+				kl, kr = append(kl, lines[i]), append(kr, refs[i])
+				agg.add("variant_lines", 1)
+				same := true
+				if ok, _ := sameHashesIgnoringNames(refs[i].Hashes, refs[projLineIndex(lines, lines[i].Project)].Hashes); !ok {
+					same = false
+				}
+				if !same {
+					agg.add("variant_lines_with_other_results", 1)
+				}
+			}
+			lines, refs = kl, kr
+		}
 		for i, rf := range refs {
 			if lines[i].DupOf < 0 && (rf.Failed || len(rf.Hashes) == 0) {
 				agg.mu.Lock()
@@ -340,8 +376,8 @@ func runC03(tier string, seed uint64) int {
 	}
 	agg.cov["distinct_completion_orders"] = int64(len(agg.orders))
 	spec := checkSpec{Prop: "C03", Level: "exploration",
-		Rule:     "per batch: generated projects covering the five ET methods, three weather layouts, three groundwater modes, PTF and automatic management, plus the same project with a second result folder and exact duplicate lines; every distinct line is run alone twice in fresh processes (reference hashes, reproducibility), then the whole batch is executed by the real hermes2go built with -race and the verif hooks under schedules = (concurrency 1..16, shuffled line order, GOMAXPROCS 1/2/16, seeded delays at run start / before the result send / at pool access); every line's result files must equal the solo reference, every log id must have exactly one run_start and one run_end event in the trace, the race detector must stay silent; plus a porcupine linearizability check of recorded file-pool histories (in-process, -race). evaluations = batch executions under a schedule; non-trivial = executions in which at least two runs were active at the same time according to the trace",
-		Floors:   []string{"line_results_compared", "schedules_concurrency_1", "schedules_concurrency_16", "schedules_with_injected_delays", "solo_reference_runs", "pool_history_operations", "pool_histories_checked", "lines_logging_while_valid", "lines_with_custom_crop_code", "lines_with_instability_marker"},
+		Rule:     "per batch: generated projects covering the five ET methods, three weather layouts, three groundwater modes, PTF and automatic management, plus the same project with a second result folder, exact duplicate lines and configuration variants of a project (the same input files run with another groundwater source, ET method, CO2 method, leaching depth, fertilisation factor, deposition, parameter format ... on the batch line); every distinct line is run alone twice in fresh processes (reference hashes, reproducibility), then the whole batch is executed by the real hermes2go built with -race and the verif hooks under schedules = (concurrency 1..16, shuffled line order, GOMAXPROCS 1/2/16, seeded delays at run start / before the result send / at pool access); every line's result files must equal the solo reference, every log id must have exactly one run_start and one run_end event in the trace, the race detector must stay silent; plus a porcupine linearizability check of recorded file-pool histories (in-process, -race). evaluations = batch executions under a schedule; non-trivial = executions in which at least two runs were active at the same time according to the trace",
+		Floors:   []string{"line_results_compared", "schedules_concurrency_1", "schedules_concurrency_16", "schedules_with_injected_delays", "solo_reference_runs", "pool_history_operations", "pool_histories_checked", "lines_logging_while_valid", "lines_with_custom_crop_code", "lines_with_instability_marker", "variant_lines_with_other_results"},
 		FloorMin: map[string]int64{"max_simultaneous_runs": 4, "distinct_completion_orders": 3}}
 	return finishCheck(spec, tier, seed, []*CaseResult{agg.toCase("C03", seed)}, agg.inconcl, t0, map[string]interface{}{"race_detector": "go build -race; GORACE=halt_on_error=0 log_path=...; reports deduplicated by outermost frame pair"})
 }
@@ -600,4 +636,74 @@ func init() {
 			return otherChecks[p](m.Tier, m.Seed)
 		}
 	}
+}
+
+// variantTokens: one or two settings for the batch line that differ from the project's configuration file
+func variantTokens(sc *Scenario, r *Rng, v int) []string {
+	var out []string
+	used := map[int]bool{}
+	want := 1 + r.Intn(2)
+	for len(out) < want {
+		c := r.Intn(9)
+		if len(out) == 0 {
+			c = v % 9 // the v-th variant of a batch starts with setting kind v
+		}
+		if used[c] {
+			continue
+		}
+		used[c] = true
+		switch c {
+		case 0:
+			alt := []int{1, 0, r.Intn(2)}[sc.GWMode]
+			out = append(out, fmt.Sprintf("GroundWaterFrom=%d", alt))
+		case 1:
+			out = append(out, fmt.Sprintf("ETpot=%d", 1+(sc.ETpot+r.Intn(3))%4))
+		case 2:
+			out = append(out, fmt.Sprintf("CO2method=%d", 1+sc.CO2Method%3))
+		case 3:
+			out = append(out, fmt.Sprintf("LeachingDepth=%d", 1+r.Intn(sc.Soil.N())))
+		case 4:
+			out = append(out, fmt.Sprintf("Fertilization=%d", 30+r.Intn(120)))
+		case 5:
+			out = append(out, fmt.Sprintf("NDeposition=%d", r.Intn(60)))
+		case 6:
+			if sc.CropParamYml {
+				out = append(out, "CropParameterFormat=txt")
+			} else {
+				out = append(out, "CropParameterFormat=yml")
+			}
+		case 7:
+			out = append(out, fmt.Sprintf("CO2concentration=%d", 450+r.Intn(300)))
+		case 8:
+			out = append(out, fmt.Sprintf("GroundWaterPhase=%d", r.Intn(300)))
+		}
+	}
+	return out
+}
+
+// projLineIndex: index of the first (plain) line of a project
+func projLineIndex(lines []batchLine, project string) int {
+	for i := range lines {
+		if lines[i].Project == project {
+			return i
+		}
+	}
+	return 0
+}
+
+// sameHashesIgnoringNames compares the multisets of file hashes of two result folders
+func sameHashesIgnoringNames(a, b map[string]string) (bool, string) {
+	ca := map[string]int{}
+	for _, h := range a {
+		ca[h]++
+	}
+	for _, h := range b {
+		ca[h]--
+	}
+	for _, n := range ca {
+		if n != 0 {
+			return false, "different contents"
+		}
+	}
+	return true, ""
 }
